@@ -10,17 +10,18 @@ import z3
 from vsym import sym as S
 from vsym import engine as E
 from vsym import harness as H
-from vsym.npproxy import NPProxy, rebind
+from vsym.npproxy import NPProxy, rebind, has_sym
 
 PID = "C14"
 
 META = dict(
     level="other",
-    stubs=["np.zeros in rbgeom -> object array", "mkusetcoordinfo in getcoordinates -> returns the symbolic 5x3 coordinate-system record (origin + orthonormal transform) of the harness"],
-    outside=["cylindrical and spherical branches (atan2, hypot, sin, cos of symbolic values)", "mkusetcoordinfo / build_coords (A-B-C construction: norms, cross products inside pandas-indexed tables)",
+    stubs=["mkusetcoordinfo: linalg.norm -> non-negative root symbol with its defining square; np.cross -> written out on object arrays; .astype(float) on symbolic values -> identity (AST hook)",
+           "np.zeros in rbgeom -> object array", "mkusetcoordinfo in getcoordinates -> returns the symbolic 5x3 coordinate-system record (origin + orthonormal transform) of the harness"],
+    outside=["cylindrical and spherical branches (atan2, hypot, sin, cos of symbolic values)", "mkusetcoordinfo: y and x axes of the A-B-C construction (nested root symbols: unknown from nlsat at 15 s), cylindrical / spherical reference systems, lookup by id in a USET table; build_coords / addgrid chains (pandas)",
              "rbgeom_uset (DataFrame), rbcoords, formrbe3 (least squares / LU), replace_basic_cs (raises on this NumPy: its two tests are baseline failures)"],
     assumptions=["grid coordinates, reference points, rigid motion parameters in [-10, 10]; rectangular transform T from a list of five exact rational rotation matrices (the fully symbolic orthonormal T was inconclusive in nlsat), origin and point symbolic"],
-    reach_required=["rbgeom-shift", "rbgeom-noshift", "rbgeom-partial-zero-ref", "rbgeom-gridref", "rbmove", "rect-roundtrip"],
+    reach_required=["coordinfo", "coordinfo-identity-ref", "rbgeom-shift", "rbgeom-noshift", "rbgeom-partial-zero-ref", "rbgeom-gridref", "rbmove", "rect-roundtrip"],
     trusted_base=["z3 5.1 (nlsat)"],
 )
 
@@ -198,13 +199,118 @@ def replay_rect(p):
     return False, "rectangular map fine on the real code (round trip not replayed: getcoordinates needs a USET table)"
 
 
-REPLAY = {"rbgeom": replay_rbgeom, "rect": replay_rect}
+# ---------------------------------------------------------------------------
+# mkusetcoordinfo: a rectangular system defined by points A, B, C given in a rectangular reference system
+
+class NPC(NPProxy):
+    """np stand-in for mkusetcoordinfo: cross products of object arrays written out (np.cross converts to float)"""
+
+    def cross(self, a, b):
+        a, b = np.asarray(a, dtype=object), np.asarray(b, dtype=object)
+        return np.array([a[1] * b[2] - a[2] * b[1], a[2] * b[0] - a[0] * b[2], a[0] * b[1] - a[1] * b[0]], dtype=object)
+
+    def array(self, a, dtype=None, **kw):
+        return np.array(a, dtype=dtype, **kw) if dtype is object or not has_sym(a) else np.array(a, dtype=object)
+
+
+class _Linalg:
+    @staticmethod
+    def norm(v):
+        e = z3.Sum([S.lift(x) * S.lift(x) for x in v])
+        return S.SymR(e).sqrt()
+
+
+def coordinfo_fn(qi, ident_ref):
+    def fn(eng):
+        S.set_engine(eng)
+        from vsym import astload
+        n2p = _n2p()
+        g = dict(n2p.mkusetcoordinfo.__globals__)
+        g.update(np=NPC(), linalg=_Linalg)
+        f = astload.load(n2p.mkusetcoordinfo, hooks=("astype",), globs=g)
+        Tq = _rot(QUATS[0 if ident_ref else qi])
+        o = _vec("o", 3)
+        A, B, C = _vec("A", 3), _vec("B", 3), _vec("C", 3)
+        for v in o + A + B + C:
+            eng.assume(z3.And(v >= -10, v <= 10))
+        ab = [B[k] - A[k] for k in range(3)]
+        ac = [C[k] - A[k] for k in range(3)]
+        n_ = _cross(ab, ac)
+        # A, B, C span a plane (documented requirement of the A-B-C definition)
+        eng.assume(z3.Sum([x * x for x in ab]) >= z3.RealVal("0.01"))
+        eng.assume(z3.Sum([x * x for x in n_]) >= z3.RealVal("0.01"))
+        ref = np.empty((5, 3), dtype=object)
+        ref[0] = [5.0, 1.0, 0.0]
+        ref[1] = [S.SymR(x) for x in o]
+        for i in range(3):
+            ref[2 + i] = [Tq[i][j] for j in range(3)]
+        cord = np.empty((4, 3), dtype=object)
+        cord[0] = [9, 1, 5]
+        for r_, P in enumerate((A, B, C)):
+            cord[1 + r_] = [S.SymR(x) for x in P]
+        info = dict(kernel="coordinfo", quat=list(QUATS[0 if ident_ref else qi]))
+        try:
+            ci = f(cord, None, {5: ref})
+        except E.Inconclusive:
+            raise
+        except Exception as ex:
+            import traceback
+            return [E.Obl("mkusetcoordinfo raises %r (%s)" % (ex, traceback.format_exc()[-300:]), False, info=info)]
+        eng.tag("coordinfo-identity-ref" if ident_ref else "coordinfo")
+        obls = [E.Obl("mkusetcoordinfo: 5 x 3 record with id and type", np.shape(ci) == (5, 3) and ci[0, 0] == 9 and ci[0, 1] == 1, info=info)]
+        if np.shape(ci) != (5, 3):
+            return obls
+        Tg = [[z3.RealVal(Tq[i][j]) for j in range(3)] for i in range(3)]
+        rot = lambda v: [z3.Sum([Tg[i][j] * v[j] for j in range(3)]) for i in range(3)]
+        gab, gac, gn = rot(ab), rot(ac), rot(n_)
+        T = [[S.lift(ci[2 + i, j]) for j in range(3)] for i in range(3)]
+        col = lambda j: [T[i][j] for i in range(3)]
+        dot = lambda u, v: z3.Sum([u[k] * v[k] for k in range(3)])
+        for k in range(3):
+            obls.append(E.Obl("origin in basic = reference origin + T_ref A [%d]" % k, S.lift(ci[1, k]) == o[k] + rot(A)[k], info=info))
+        x, y, z = col(0), col(1), col(2)
+        for k, c in enumerate(_cross(z, gab)):
+            obls.append(E.Obl("z axis is parallel to A->B [%d]" % k, c == 0, info=info))
+        obls.append(E.Obl("z axis points from A to B", dot(z, gab) > 0, info=info))
+        obls.append(E.Obl("z axis has unit length", dot(z, z) == 1, info=info))
+        # the y and x axes (normalised cross products of normalised vectors: nested root symbols) came back `unknown`
+        # from both z3 cores at 15 s per obligation; they are outside the claim
+        return obls
+    return fn
+
+
+def replay_coordinfo(p):
+    n2p = _n2p()
+    mdl = p["model"]
+    gf = lambda k: float(Fraction(mdl.get(k, 0) or 0))
+    o = np.array([gf("o%d" % k) for k in range(3)])
+    A, B, C = [np.array([gf("%s%d" % (nm, k)) for k in range(3)]) for nm in "ABC"]
+    Tq = np.array([[float(v) for v in row] for row in _rot(p["quat"])])
+    if np.linalg.norm(np.cross(B - A, C - A)) < 1e-6:
+        A, B, C = np.array([1.0, 2.0, 3.0]), np.array([2.0, 2.5, 3.0]), np.array([0.0, 4.0, 1.0])
+    if not np.any(o):
+        o = np.array([1.0, -2.0, 0.5])
+    ref = np.vstack(([5, 1, 0], o, Tq))
+    ci = n2p.mkusetcoordinfo(np.vstack(([9, 1, 5], A, B, C)), None, {5: ref})
+    z = Tq @ (B - A)
+    z /= np.linalg.norm(z)
+    y = np.cross(z, Tq @ (C - A))
+    y /= np.linalg.norm(y)
+    x = np.cross(y, z)
+    want = np.vstack(([9, 1, 0], o + Tq @ A, np.vstack((x, y, z)).T))
+    if not np.allclose(ci, want, atol=1e-9):
+        return True, "mkusetcoordinfo(A=%s, B=%s, C=%s in a rectangular reference system with origin %s): record differs from the geometric definition by %.3e (origin row %s, expected %s)" % (
+            A.tolist(), B.tolist(), C.tolist(), o.tolist(), abs(ci - want).max(), ci[1].tolist(), want[1].tolist())
+    return False, "mkusetcoordinfo fine on the real code"
+
+
+REPLAY = {"rbgeom": replay_rbgeom, "rect": replay_rect, "coordinfo": replay_coordinfo}
 
 
 def job(kind, *args):
-    eng = E.Engine(obl_timeout_ms=120000)
+    eng = E.Engine(obl_timeout_ms=120000, tactic="qfnra-nlsat") if kind == "coordinfo" else E.Engine(obl_timeout_ms=120000)
     eng.obl_mode = "each"
-    fn = rbgeom_fn(*args) if kind == "rbgeom" else rect_fn(*args)
+    fn = rbgeom_fn(*args) if kind == "rbgeom" else (coordinfo_fn(*args) if kind == "coordinfo" else rect_fn(*args))
     res = eng.explore(fn, max_cex=3)
     res["note"] = "%s %s" % (kind, args)
 
@@ -223,9 +329,12 @@ def jobs(tier, seed):
             out.append(H.Job("rbgeom-%d-%s" % (ng, refmode), job, "rbgeom", ng, refmode, weight=10 * ng))
     for qi in range(len(QUATS)):
         out.append(H.Job("rect-%d" % qi, job, "rect", qi, weight=5))
+    out.append(H.Job("coordinfo-identity-ref", job, "coordinfo", 0, True, weight=10))
+    for qi in (1, 2) if tier == "quick" else (1, 2, 3, 4):
+        out.append(H.Job("coordinfo-%d" % qi, job, "coordinfo", qi, False, weight=10))
     return out
 
 
 def extra_coverage(results):
     n2p = _n2p()
-    return dict(functions_encoded=[H.fn_id(n2p.rbgeom), H.fn_id(n2p.rbmove), H.fn_id(n2p._get_loc_a_basic), H.fn_id(n2p.getcoordinates)])
+    return dict(functions_encoded=[H.fn_id(n2p.mkusetcoordinfo), H.fn_id(n2p.rbgeom), H.fn_id(n2p.rbmove), H.fn_id(n2p._get_loc_a_basic), H.fn_id(n2p.getcoordinates)])
